@@ -48,7 +48,7 @@ REAL = ['asyncssh forward.py, listener.py, socks.py, connection/channel '
         'forwarding paths of both endpoints']
 STUB = ['event loop + clock', 'TCP/UNIX sockets and listeners', 'DNS',
         'executor', 'origin and destination applications']
-PROBES = ['connected_behind_the_grant', 'listener_closed_twice', 'duplicate_listen_request', 'dynamic_listen_ports', 'mode_remote_unix', 'mode_local', 'mode_socks', 'mode_remote', 'mode_local_unix',
+PROBES = ['socks_request_never_completed', 'connected_behind_the_grant', 'listener_closed_twice', 'duplicate_listen_request', 'dynamic_listen_ports', 'mode_remote_unix', 'mode_local', 'mode_socks', 'mode_remote', 'mode_local_unix',
           'early_data', 'half_close', 'origin_abort', 'dest_close_first',
           'slow_consumer', 'refused_by_policy', 'ssh_cut',
           'origin_gone_during_open', 'multi_conn', 'listen_refused']
@@ -123,6 +123,8 @@ def gen_plan(rng):
         'dyn_ports': mode == 'remote' and rng.chance(40),
         'dup_listen': mode == 'remote_unix' and rng.chance(40),
         'eager': mode == 'remote' and rng.chance(30),
+        'socks_stuck': rng.choice([None, None, 'fin', 'hold'])
+        if mode == 'socks' else None,
         'lclose2': rng.choice([0, 0, 0, 1, 5, 30])
         if mode in ('remote', 'remote_unix') else 0,
     }
@@ -605,6 +607,38 @@ def run_plan(plan, sched_seed=None, sched_replay=None):
             if ci not in eager_started:
                 sim.track('origin%d' % ci, start_origin(ci, c))
 
+        if mode == 'socks' and plan.get('socks_stuck') and \
+                listeners.get(0) is not None:
+            # a SOCKS client that never completes its request: it sends the
+            # start of one and then hangs up its sending side, or just waits
+            class Stuck(asyncio.Protocol):
+                def __init__(self):
+                    self.transport = None
+                    self.gone = False
+
+                def connection_made(self, transport):
+                    self.transport = transport
+
+                def eof_received(self):
+                    self.gone = True
+                    return False
+
+                def connection_lost(self, exc):
+                    self.gone = True
+
+            stuck = res['stuck'] = Stuck()
+
+            try:
+                await loop.create_connection(lambda: stuck, '127.0.0.1',
+                                             1080)
+                stuck.transport.write(b'\x05\x01')
+                sim.probes['socks_request_never_completed'] += 1
+
+                if plan['socks_stuck'] == 'fin':
+                    stuck.transport.write_eof()
+            except OSError:
+                res['stuck'] = None
+
         if plan.get('lclose2') and listeners.get(0) is not None:
             async def close_twice():
                 # the listener is closed while connections are being
@@ -888,6 +922,15 @@ def run_plan(plan, sched_seed=None, sched_replay=None):
         if open_e and not world.violations:
             world.violation('socket-residue', 'relayed sockets still open '
                             'after the SSH connection ended: %r' % open_e)
+
+        stuck = res.get('stuck')
+
+        if stuck is not None and not stuck.gone and not world.violations:
+            world.violation(
+                'socket-residue', 'a socket accepted by the SOCKS listener '
+                'whose request was never completed (%s) is still open after '
+                'the SSH connection ended' % plan['socks_stuck'],
+                sig='socks-' + plan['socks_stuck'])
 
         hung = [h for h in sim.hung() if h != 'main']
 
